@@ -272,6 +272,12 @@ func (fr *Frame) execInstr(in ssa.Instruction, st *State) {
 		fr.next(x, st)
 	case *ssa.Range:
 		fr.set(x, Val{Iter: &iterInfo{Coll: fr.val(x.X), Ty: x.X.Type()}, Known: true})
+		if isMap(x.X.Type()) {
+			// ghost counter of the iteration: index of the entry handed out last (-1 before the first)
+			k := fr.fx.eng.iterKey(x)
+			fr.fx.keySort[k] = SInt
+			st.heap[k] = Int(-1)
+		}
 	case *ssa.Slice:
 		fr.sliceOp(x, st)
 	case *ssa.Store:
@@ -728,6 +734,23 @@ func (fr *Frame) next(x *ssa.Next, st *State) {
 	fx.wellFormed(st, k, mt.Key())
 	fx.wellFormed(st, v, mt.Elem())
 	fx.assume(st, Implies(ok, And(Not(Eq(m, Nil)), Select(fx.mapDom(st, mt, m), k, SBool), Eq(v, Select(fx.mapVals(st, mt, m), k, vs)))))
+	// enumeration model: the n-th entry handed out is iterkey(m, n), an injective enumeration of the key set, and the
+	// iteration ends exactly when len(m) entries were handed out. Only sound while the loop leaves the map alone:
+	// when the loop body may write a map of this key sort, only `ok => k in dom` above is assumed.
+	if rg, isR := x.Iter.(*ssa.Range); isR {
+		ik := fx.eng.iterKey(rg)
+		n := fx.ctx.Define("iter.n", Add(fx.heapGet(st, ik, SInt), Int(1)))
+		st.heap[ik] = n
+		if !fr.loopWritesMapOf(x, ks) {
+			f := fx.ctx.DeclFun("iterkey."+string(ks), []Sort{SInt, SInt}, ks)
+			inv := fx.ctx.DeclFun("iterkeyinv."+string(ks), []Sort{SInt, ks}, SInt)
+			fx.ctx.RawOnce("iterkey-inj."+string(ks), fmt.Sprintf("(assert (forall ((m Int) (n Int)) (! (= (%s m (%s m n)) n) :pattern ((%s m n)))))", inv, f, f))
+			ln := fx.mapLen(st, m)
+			fx.assume(st, And(Ge(n, Int(0)), Le(n, Ite(Eq(m, Nil), Int(0), ln))))
+			fx.assume(st, Eq(ok, Lt(n, Ite(Eq(m, Nil), Int(0), ln))))
+			fx.assume(st, Implies(ok, Eq(k, Term{"(" + f + " " + m.S + " " + n.S + ")", ks})))
+		}
+	}
 	fr.set(x, Val{Tuple: []Val{tv(ok), tv(k), tv(v)}, Known: true})
 }
 
@@ -949,3 +972,26 @@ func structLoadIsReadOnly(x *ssa.UnOp) bool {
 
 // isLocalStructAddr is set by the engine: does this address denote a frame-local struct variable (or a nested field of one)?
 var isLocalStructAddr func(ssa.Value) bool
+
+// loopWritesMapOf: may the innermost loop around the Next instruction write the domain of a map with this key sort?
+func (fr *Frame) loopWritesMapOf(x *ssa.Next, ks Sort) bool {
+	li := fr.loops
+	if li == nil {
+		return true
+	}
+	h := -1
+	for hdr, body := range li.body {
+		if body[x.Block().Index] && (h < 0 || len(body) < len(li.body[h])) {
+			h = hdr
+		}
+	}
+	if h < 0 {
+		return true
+	}
+	keys, any := fr.loopMods(h)
+	if any {
+		return true
+	}
+	_, ok := keys["MDom."+string(ks)]
+	return ok
+}
